@@ -83,7 +83,14 @@ func lemmaChallengeReencode(b []byte) {
 //@ assigns object(r)
 //@ end
 
+// ReqType(r): the token type a request object reports. Type() is assumed to be a pure function of the
+// object's identity (every implementation in the module returns a constant).
+//
+//@ spec opaque
+func ReqType(r any) uint16 { return 0 }
+
 //@ iface ($PKG.TokenRequestWithDetails).Type func(r TokenRequestWithDetails) (t uint16)
+//@ ensures t == ReqType(r)
 //@ assigns none
 //@ pure
 //@ end
